@@ -20,6 +20,9 @@ def documents(secret_path):
     d["use_cycle3"] = f'<svg {NS} viewBox="0 0 9 9"><g id="a"><use xlink:href="#b"/></g><g id="b"><use xlink:href="#c"/></g><g id="c"><use xlink:href="#a"/></g></svg>'
     d["use_rho"] = f'<svg {NS} viewBox="0 0 9 9"><use xlink:href="#a"/><g id="a"><use xlink:href="#b"/></g><g id="b">{rect}<use xlink:href="#b"/></g></svg>'
     d["use_in_defs_self"] = f'<svg {NS} viewBox="0 0 9 9"><defs><g id="a"><use xlink:href="#a"/></g></defs><use xlink:href="#a"/></svg>'
+    d["use_only_self"] = f'<svg {NS} viewBox="0 0 9 9">{rect}<use id="a" xlink:href="#a"/></svg>'
+    d["use_only_mutual"] = f'<svg {NS} viewBox="0 0 9 9"><use id="a" xlink:href="#b"/>{rect}<use id="b" xlink:href="#a"/></svg>'
+    d["use_only_cycle3_in_group"] = f'<svg {NS} viewBox="0 0 9 9"><g><use id="a" xlink:href="#b"/><use id="b" xlink:href="#c" x="1"/></g><defs><use id="c" xlink:href="#a"/></defs></svg>'
     d["use_dangling"] = f'<svg {NS} viewBox="0 0 9 9"><use xlink:href="#nope"/></svg>'
     d["use_deep_acyclic"] = f'<svg {NS} viewBox="0 0 9 9"><defs>' + f'<g id="l0">{rect}</g>' + "".join(f'<g id="l{i}"><use xlink:href="#l{i-1}"/><use xlink:href="#l{i-1}" x="1"/></g>' for i in range(1, 7)) + '</defs><use xlink:href="#l6"/></svg>'
     d["clip_self"] = f'<svg {NS} viewBox="0 0 9 9"><clipPath id="c" clip-path="url(#c)">{rect}</clipPath><rect width="5" height="5" clip-path="url(#c)"/></svg>'
@@ -36,6 +39,9 @@ def documents(secret_path):
     d["bad_transform"] = f'<svg {NS} viewBox="0 0 9 9"><rect width="1" height="1" transform="rotate(x)"/></svg>'
     d["bad_viewbox"] = f'<svg {NS} viewBox="0 0 9"><rect width="1" height="1"/></svg>'
     d["entity_internal"] = f'<!DOCTYPE svg [<!ENTITY w "7">]><svg {NS} viewBox="0 0 9 9"><rect width="&w;" height="5"/></svg>'
+    d["entity_text_between_shapes"] = f'<!DOCTYPE svg [<!ENTITY note "hello">]><svg {NS} viewBox="0 0 9 9"><g opacity="0.5">{rect}&note;<rect x="3" width="2" height="2"/></g></svg>'
+    d["entity_markup_between_shapes"] = '<!DOCTYPE svg [<!ENTITY shape "<rect xmlns=&#39;http://www.w3.org/2000/svg&#39; x=&#39;4&#39; width=&#39;2&#39; height=&#39;2&#39;/>">]>' + f'<svg {NS} viewBox="0 0 9 9">{rect}&shape;</svg>'
+    d["entity_in_defs"] = f'<!DOCTYPE svg [<!ENTITY note "hello">]><svg {NS} viewBox="0 0 9 9"><defs>&note;</defs>{rect}</svg>'
     d["entity_external"] = f'<!DOCTYPE svg [<!ENTITY xxe SYSTEM "file://{secret_path}">]><svg {NS} viewBox="0 0 9 9"><desc>&xxe;</desc><rect width="2" height="2"/>&xxe;</svg>'
     d["entity_external_dash"] = f'<!DOCTYPE svg [<!ENTITY ext-shape SYSTEM "file://{secret_path}">]><svg {NS} viewBox="0 0 9 9"><rect width="2" height="2"/>&ext-shape;</svg>'
     d["entity_parameter"] = f'<!DOCTYPE svg [<!ENTITY % more SYSTEM "file://{secret_path}.dtd"> %more;]><svg {NS} viewBox="0 0 9 9"><rect width="&w;" height="2"/></svg>'
@@ -78,6 +84,8 @@ def check(tier, seed, limit_s=None):
         elif r["kind"] == "crash":
             findings.append((f"termination:crash:{name}", f"adversarial document {name!r} killed the interpreter: {r.get('text', '')[:120]}", dict(doc=name, source=docs[name])))
         elif r["kind"] == "returned":
+            if r.get("malformed"):
+                findings.append((f"termination:malformed:{name}", f"{name!r} returned normally but the serialised document is not well-formed XML: {r['malformed'][:120]}", dict(doc=name, source=docs[name], output=r.get("output", "")[:300])))
             if r.get("violations"):
                 findings.append((f"termination:grammar:{name}", f"{name!r} returned a document that is not a picosvg: {r['violations'][:2]}", dict(doc=name, source=docs[name])))
             if token in r.get("output", "") or 'x="50"' in r.get("output", "") or "7.25" in r.get("output", "") or "M50,60" in r.get("output", ""):
